@@ -375,6 +375,12 @@ def _model_loop(E, dt, steps, msteps, dtid, k, ctx, modtext, modname):
         ok_last = W.is_expr(st) and same(res['out'], wt)
         ok_repr = vr is not None and same(vr, wt)
         if ok_full or ok_last or ok_repr:
+            if alt is not None and not (same(''.join(window) + alt, wt) or same(alt, wt)):
+                # satisfied only if the value is *not* echoed: in REPL mode the echoed value is part
+                # of what was written, and which mode a statement runs in is not fixed (F6): silent
+                E.silent.add('verdict')
+                E.notes.append('want satisfied only without the echoed value: model silent')
+                break
             window = []
             window_keep = []
             continue
